@@ -45,11 +45,11 @@ fn py_is_sha(sha: &Py<PyAny>, py: Python) -> PyResult<bool> {
 #[pyfunction]
 fn bisect_find_sha(
     py: Python,
-    start: i32,
-    end: i32,
+    start: isize,
+    end: isize,
     sha: Py<PyBytes>,
     unpack_name: Py<PyAny>,
-) -> PyResult<Option<i32>> {
+) -> PyResult<Option<isize>> {
     // Convert sha_obj to a byte slice
     let sha = sha.as_bytes(py);
     let sha_len = sha.len();
@@ -61,19 +61,23 @@ fn bisect_find_sha(
         ));
     }
 
-    // Check if start > end
+    // Same argument checks as the Python implementation
+    if start < 0 {
+        return Err(PyValueError::new_err("start must not be negative"));
+    }
     if start > end {
         return Err(PyValueError::new_err("start > end"));
     }
 
-    // Binary search loop
+    // Binary search loop.  0 <= start <= end <= isize::MAX here, so neither
+    // the midpoint nor `i - 1` can overflow; `i + 1` is checked.
     let mut start = start;
     let mut end = end;
     loop {
         if start > end {
             break;
         }
-        let i = (start + end) / 2;
+        let i = start + (end - start) / 2;
 
         let file_sha = unpack_name.call1(py, (i,))?;
         if !py_is_sha(&file_sha, py)? {
@@ -81,9 +85,10 @@ fn bisect_find_sha(
         }
 
         match file_sha.extract::<&[u8]>(py).unwrap().cmp(sha) {
-            std::cmp::Ordering::Less => {
-                start = i + 1;
-            }
+            std::cmp::Ordering::Less => match i.checked_add(1) {
+                Some(next) => start = next,
+                None => break,
+            },
             std::cmp::Ordering::Greater => {
                 end = i - 1;
             }
